@@ -96,8 +96,23 @@ func (t *Tape) AddZeros(n int64) *Seg {
 	return s
 }
 
-// CutAt truncates the file to n bytes (a torn tail); the structure beyond n is unreadable.
-func (t *Tape) CutAt(n int64) { t.Len = n }
+// CutAt truncates the file to n bytes (a torn tail). Segments that start at or after the cut are gone;
+// a run of zero blocks that straddles the cut is shortened; a member that straddles it stays in the
+// list (its nominal extent then reaches beyond the end of the file, which is what readers trip over).
+func (t *Tape) CutAt(n int64) {
+	var keep []*Seg
+	for _, s := range t.Segs {
+		if s.Start >= n {
+			continue
+		}
+		if s.Kind != SegMember && s.End() > n {
+			s = &Seg{Kind: SegZeros, Start: s.Start, Size: n - s.Start}
+		}
+		keep = append(keep, s)
+	}
+	t.Segs = keep
+	t.Len = n
+}
 
 func (t *Tape) LastMember() *Seg {
 	for i := len(t.Segs) - 1; i >= 0; i-- {
@@ -240,6 +255,9 @@ type trState struct {
 
 var readers = map[*tar.Reader]*trState{}
 
+// LostPAX counts headers delivered without their PAX records (see next()).
+var LostPAX int
+
 //verif:replace archive/tar.NewReader
 func TarNewReader(r io.Reader) *tar.Reader {
 	tr := new(tar.Reader)
@@ -324,6 +342,22 @@ func (st *trState) next() (*tar.Header, error) {
 					h.PAXRecords[k] = v
 				}
 			}
+			return &h, nil
+		}
+		if s.Kind == SegMember && s.HBlocks > 1 && pos == s.Start+512*(s.HBlocks-1) && pos+512 <= t.Len {
+			// a resynchronising reader that lands on the member's last header block parses the plain ustar
+			// block: the entry is recognised (short names) but its PAX records are lost
+			f.Pos = pos + 512
+			st.cur = s
+			if headerOnly(s.Hdr.Typeflag) {
+				st.rem, st.pad = 0, 0
+			} else {
+				st.rem = s.Size
+				st.pad = s.End() - s.Start - 512*s.HBlocks - s.Size
+			}
+			h := *s.Hdr
+			h.PAXRecords = nil
+			LostPAX++
 			return &h, nil
 		}
 		if s.Kind != SegMember && pos >= s.Start && pos < s.End() && (pos-s.Start)&511 == 0 {
@@ -509,7 +543,9 @@ func TarWriterWriteHeader(tw *tar.Writer, hdr *tar.Header) error {
 	t := st.f.T
 	hb := int64(Int("tw.hblocks", 1, 8))
 	Assume(hb != 2)
-	if len(hdr.PAXRecords) > 0 {
+	if len(hdr.PAXRecords) > 0 || hdr.Format == tar.FormatPAX {
+		// PAX records (STFS action records, or the sub-second mtime every STFS-written header has) take an
+		// extended-header block and a data block in front of the ustar block
 		Assume(hb >= 3)
 	}
 	h := *hdr
